@@ -29,7 +29,11 @@ def run(tier):
     db = os.path.join(d, "drv.db")
     desc = gen.tree_db(db, 1024, random.Random(rnd.randrange(1 << 30)), n=40, extreme=False, deep_rows=600)
     con = sqlite3.connect(db)
-    counts = {t: con.execute("SELECT count(*) FROM %s" % t).fetchone()[0] for t in ("r", "w", "alt", "e", "deep")}
+    # a table whose second row takes long to load (hundreds of overflow pages): Close arrives while the producer is inside it
+    con.execute("CREATE TABLE slow(id INTEGER PRIMARY KEY, b)")
+    con.execute("INSERT INTO slow VALUES(1, 'small'), (2, ?), (3, 'small too')", (b"S" * 300000,))
+    con.commit()
+    counts = {t: con.execute("SELECT count(*) FROM %s" % t).fetchone()[0] for t in ("r", "w", "alt", "e", "deep", "slow")}
     con.close()
     queries = [("SELECT * FROM alt", "alt", None), ("SELECT id, a, b FROM r", "r", ["id", "a", "b"]), ("select * from w", "w", None),
                ("SELECT q, p, d1 FROM alt", "alt", ["q", "p", "d1"]), ("SELECT * FROM e", "e", None), ("SELECT rowid, c FROM r", "r", ["rowid", "c"]),
@@ -60,6 +64,11 @@ def run(tier):
         for action in ("close", "cancel_close"):
             for yf in (False, True):
                 add(query="SELECT id, t FROM deep", next_k=k, action=action, gomaxprocs=4, yield_first=yf, table="deep", n=counts["deep"], fault=False, stopcost=True)
+    # Close / cancel while the producer is in the middle of a row that takes ~0.5 s to load (slow page reads): Close returns
+    # only when the producer has stopped and released the lock
+    for action in ("close", "cancel_close"):
+        for k in (1, 0):
+            add(query="SELECT id, b FROM slow", next_k=k, action=action, gomaxprocs=4, yield_first=True, table="slow", n=counts["slow"], fault=False, delay_us=1500)
     # read faults inside the statement's handle, at every read position of a scan of r
     for j in range(1, 26 if tier == "quick" else 60):
         for k, action in ((-1, "drain"), (1, "close"), (3, "cancel_close")):
@@ -70,10 +79,25 @@ def run(tier):
         add(query="SELECT id, a, b FROM r", next_k=-1, action="drain", gomaxprocs=rnd.choice([1, 4]), yield_first=bool(j % 2), table="r", n=counts["r"],
             fault=True, fail_at=j, fail_mode="short")
     # really truncated files: cut inside a page and at a page boundary, inside the table that is read
-    size = os.path.getsize(db)
-    for name, cut in (("cut-mid", size - 1024 - 300), ("cut-page", size - 2048), ("cut-half", (size // 2048) * 1024 + 17)):
+    # (cut from a copy without the big tables `deep` and `slow`, which lie at the end of the file)
+    small = os.path.join(d, "small.db")
+    shutil_ = __import__("shutil")
+    shutil_.copy(db, small)
+    c2 = sqlite3.connect(small, isolation_level=None)
+    c2.execute("DROP TABLE slow")
+    c2.execute("DROP TABLE deep")
+    c2.execute("VACUUM")
+    c2.close()
+    c2 = sqlite3.connect(small)
+    last_r = c2.execute("SELECT max(pageno) FROM dbstat WHERE name = 'r'").fetchone()[0]
+    first_w = c2.execute("SELECT min(pageno) FROM dbstat WHERE name = 'w'").fetchone()[0]
+    c2.close()
+    size = os.path.getsize(small)
+    # inside the last page of table r, at the boundary before it, and in the middle of the file
+    for name, cut in (("cut-mid", (last_r - 1) * 1024 + 300), ("cut-page", (last_r - 1) * 1024), ("cut-half", (size // 2048) * 1024 + 17),
+                      ("cut-w", (first_w - 1) * 1024 + 100)):
         tp = os.path.join(d, name + ".db")
-        open(tp, "wb").write(open(db, "rb").read()[:cut])
+        open(tp, "wb").write(open(small, "rb").read()[:cut])
         for q, t, cols in queries[:6]:
             add(query=q, next_k=-1, action="drain", gomaxprocs=4, yield_first=False, table=t, n=counts[t], fault=False, db=tp, truncated=True)
     # errors that must surface
@@ -87,7 +111,7 @@ def run(tier):
         for k, action in ((0, "close"), (2, "cancel_close"), (-1, "drain")):
             add(query=q, next_k=k, action=action, gomaxprocs=4, yield_first=True, table=t, n=counts[t], fault=False, prepared=True)
     req, out = os.path.join(d, "req.ndjson"), os.path.join(d, "res.ndjson")
-    common.write_ndjson(req, [{k: s[k] for k in s if k in ("id", "db", "query", "next_k", "action", "gomaxprocs", "yield_first", "fail_at", "fail_mode", "prepared")} for s in scen])
+    common.write_ndjson(req, [{k: s[k] for k in s if k in ("id", "db", "query", "next_k", "action", "gomaxprocs", "yield_first", "fail_at", "fail_mode", "prepared", "delay_us")} for s in scen])
     rc, txt, _ = common.run([h, "driver", req, out], timeout=3000)
     if rc != 0:
         raise common.harness_failure(txt, "harness driver")
@@ -163,52 +187,7 @@ def run(tier):
             got = [tuple(values.from_jval(j) for j in row) for row in rs.get("rows") or []]
             want = [tuple(values.from_jval(j) for j in row) for row in nat.get("rows") or []]
             pairs.append(({"cls": "%s/%d" % (s["query"], s["id"]), "what": "database/sql %r" % s["query"], "sql": "native Select(%s, %s)" % (t, want_cols)}, got, want))
-    # a prepared statement executed again after another connection changed the table's definition: `*` means the columns
-    # the table has NOW
-    import shutil
-    again = []
-    for i, (q, t, alter) in enumerate([("SELECT * FROM alt", "alt", "ALTER TABLE alt ADD COLUMN zz DEFAULT 7"),
-                                      ("SELECT q, * FROM alt", "alt", "ALTER TABLE alt ADD COLUMN zz DEFAULT 'x'"),
-                                      ("select * from w", "w", "ALTER TABLE w ADD COLUMN extra"),
-                                      ("SELECT * FROM e", "e", "ALTER TABLE e RENAME COLUMN %s TO renamed" % desc["tables"]["e"]["columns"][0]["name"])]):
-        p2 = os.path.join(d, "again%d.db" % i)
-        shutil.copy(db, p2)
-        code = "import sqlite3, sys\nc = sqlite3.connect(sys.argv[1])\nc.execute(sys.argv[2])\nc.commit()\nc.close()\n"
-        again.append({"id": i, "db": p2, "query": q, "next_k": -1, "action": "drain", "gomaxprocs": 4, "yield_first": False, "prepared": True,
-                      "between": [common.PYTHON, "-c", code, p2, alter], "_t": t, "_alter": alter})
-    areq, aout = os.path.join(d, "again-req.ndjson"), os.path.join(d, "again-res.ndjson")
-    common.write_ndjson(areq, [{k: s_[k] for k in s_ if not k.startswith("_")} for s_ in again])
-    rc, txt, _ = common.run([h, "driver", areq, aout], timeout=600)
-    if rc != 0:
-        raise common.harness_failure(txt, "harness driver")
-    ares = {r_["id"]: r_ for r_ in common.read_ndjson(aout)}
-    for s_ in again:
-        ag = ares[s_["id"]].get("again") or {}
-        if ag.get("exec_err"):
-            raise Infra("the ALTER between the two executions failed: %s" % ag["exec_err"])
-        con = sqlite3.connect(s_["db"])
-        allcols = [c[1] for c in con.execute("PRAGMA table_xinfo(%s)" % s_["_t"]).fetchall() if c[6] == 0]
-        con.close()
-        want_cols = []
-        import re as _re
-        for c_ in [x.strip() for x in _re.split(r"(?i)\bfrom\b", _re.sub(r"(?i)^\s*select\b", "", s_["query"]))[0].split(",")]:
-            want_cols += allcols if c_ == "*" else [c_]
-        key = "C19:prepared-after-schema-change:%s" % s_["_alter"].split()[3]
-        if ag.get("query_err") or ag.get("err"):
-            continue            # an error is a visible outcome (the property asks for errors not to be silent)
-        if [c.lower() for c in ag.get("cols") or []] != [c.lower() for c in want_cols]:
-            v.report(key, "prepared %r executed again after %r: columns %s, the table now has %s" % (s_["query"], s_["_alter"], ag.get("cols"), want_cols),
-                     lambda s_=s_, ag=ag: common.write_replay("C19", "again-%d.json" % s_["id"], {"scenario": {k: s_[k] for k in s_ if k != "between"}, "again": {"cols": ag.get("cols")}}))
-            continue
-        nreq, nout = os.path.join(d, "an-req.ndjson"), os.path.join(d, "an-res.ndjson")
-        common.write_ndjson(nreq, [{"db": s_["db"], "mode": "fresh", "ops": [{"op": "select_all", "id": 0, "table": s_["_t"], "cols": want_cols}]}])
-        common.run([h, "ops", nreq, nout], timeout=120, check=True)
-        nat = common.read_ndjson(nout)[0]
-        got = [tuple(values.from_jval(j) for j in row) for row in ag.get("rows") or []]
-        want = [tuple(values.from_jval(j) for j in row) for row in nat.get("rows") or []]
-        pairs.append(({"cls": "again/%d" % s_["id"], "what": "prepared %r executed again after %r" % (s_["query"], s_["_alter"]), "sql": "native Select after the change"}, got, want))
-        v.nontrivial(("again", s_["query"], s_["_alter"]))
-    v.cov["prepared_statements_rerun_after_schema_change"] = len(again)
+    prepared_again(v, "C19", h, d, db, desc, pairs)
     # the same error / fault scenarios under the race detector build: the error hand-off (store, wait group, close of the
     # channel) must be ordered, an unordered one shows as a data race on the result set's fields
     hrace = common.build_harness(race=True)
@@ -256,6 +235,57 @@ def run(tier):
     v.sample({"scenario": metas[schedules[-1][0]], "events": [e["ev"] for e in schedules[-1][1]]})
     v.assumptions += ["goroutine leaks are judged after a settle period of up to 200 ms", "schedules are driven by GOMAXPROCS and short yields, not by gates: the interleavings actually reached are sampled"]
     return v.finish()
+
+
+def prepared_again(v, prop, h, d, db, desc, pairs):
+    """a prepared statement executed again after another connection changed the table's definition (C19: `*` means the
+    columns the table has NOW; C08: nothing remembered from an earlier state)"""
+    # a prepared statement executed again after another connection changed the table's definition: `*` means the columns
+    # the table has NOW
+    import shutil
+    again = []
+    for i, (q, t, alter) in enumerate([("SELECT * FROM alt", "alt", "ALTER TABLE alt ADD COLUMN zz DEFAULT 7"),
+                                      ("SELECT q, * FROM alt", "alt", "ALTER TABLE alt ADD COLUMN zz DEFAULT 'x'"),
+                                      ("select * from w", "w", "ALTER TABLE w ADD COLUMN extra"),
+                                      ("SELECT * FROM e", "e", "ALTER TABLE e RENAME COLUMN %s TO renamed" % desc["tables"]["e"]["columns"][0]["name"])]):
+        p2 = os.path.join(d, "again%d.db" % i)
+        shutil.copy(db, p2)
+        code = "import sqlite3, sys\nc = sqlite3.connect(sys.argv[1])\nc.execute(sys.argv[2])\nc.commit()\nc.close()\n"
+        again.append({"id": i, "db": p2, "query": q, "next_k": -1, "action": "drain", "gomaxprocs": 4, "yield_first": False, "prepared": True,
+                      "between": [common.PYTHON, "-c", code, p2, alter], "_t": t, "_alter": alter})
+    areq, aout = os.path.join(d, "again-req.ndjson"), os.path.join(d, "again-res.ndjson")
+    common.write_ndjson(areq, [{k: s_[k] for k in s_ if not k.startswith("_")} for s_ in again])
+    rc, txt, _ = common.run([h, "driver", areq, aout], timeout=600)
+    if rc != 0:
+        raise common.harness_failure(txt, "harness driver")
+    ares = {r_["id"]: r_ for r_ in common.read_ndjson(aout)}
+    for s_ in again:
+        ag = ares[s_["id"]].get("again") or {}
+        if ag.get("exec_err"):
+            raise Infra("the ALTER between the two executions failed: %s" % ag["exec_err"])
+        con = sqlite3.connect(s_["db"])
+        allcols = [c[1] for c in con.execute("PRAGMA table_xinfo(%s)" % s_["_t"]).fetchall() if c[6] == 0]
+        con.close()
+        want_cols = []
+        import re as _re
+        for c_ in [x.strip() for x in _re.split(r"(?i)\bfrom\b", _re.sub(r"(?i)^\s*select\b", "", s_["query"]))[0].split(",")]:
+            want_cols += allcols if c_ == "*" else [c_]
+        key = "%s:prepared-after-schema-change:%s" % (prop, s_["_alter"].split()[3])
+        if ag.get("query_err") or ag.get("err"):
+            continue            # an error is a visible outcome (the property asks for errors not to be silent)
+        if [c.lower() for c in ag.get("cols") or []] != [c.lower() for c in want_cols]:
+            v.report(key, "prepared %r executed again after %r: columns %s, the table now has %s" % (s_["query"], s_["_alter"], ag.get("cols"), want_cols),
+                     lambda s_=s_, ag=ag: common.write_replay(prop, "again-%d.json" % s_["id"], {"scenario": {k: s_[k] for k in s_ if k != "between"}, "again": {"cols": ag.get("cols")}}))
+            continue
+        nreq, nout = os.path.join(d, "an-req.ndjson"), os.path.join(d, "an-res.ndjson")
+        common.write_ndjson(nreq, [{"db": s_["db"], "mode": "fresh", "ops": [{"op": "select_all", "id": 0, "table": s_["_t"], "cols": want_cols}]}])
+        common.run([h, "ops", nreq, nout], timeout=120, check=True)
+        nat = common.read_ndjson(nout)[0]
+        got = [tuple(values.from_jval(j) for j in row) for row in ag.get("rows") or []]
+        want = [tuple(values.from_jval(j) for j in row) for row in nat.get("rows") or []]
+        pairs.append(({"cls": "again/%d" % s_["id"], "what": "prepared %r executed again after %r" % (s_["query"], s_["_alter"]), "sql": "native Select after the change"}, got, want))
+        v.nontrivial(("again", s_["query"], s_["_alter"]))
+    v.cov["prepared_statements_rerun_after_schema_change"] = len(again)
 
 
 def driver_faults(v, prop, h, hrace, d, rnd, tier):
